@@ -204,6 +204,34 @@ def interp_field_case(c):
     return dict(status="ok", fails=[])
 
 
+def smooth_scipy_case(c):
+    """An autonomous smooth model under solver='scipy' with tight tolerances in float64: every backend's wrapper keeps double precision."""
+    from scipy.integrate import solve_ivp
+    m = c["model"]
+    try:
+        df, outputs, _ = oracle.run_model(m, 1.0, 0.01, 0.1, "scipy", False, backend=c["backend"], method="DOP853", rtol=1e-11, atol=1e-13)
+    except Exception as exn:
+        return dict(status="violated", fails=[dict(clause="run(solver='scipy') on this backend", observed=f"{type(exn).__name__}: {exn}"[:300])])
+    svars = mdl.state_vars(m)
+    y0 = mdl.initial_state(m)
+
+    def f(t, y):
+        dy, _ = mdl.spec_rhs(m, dict(zip(svars, y)), t=t)
+        return [dy[v] for v in svars]
+    times = np.arange(10) * 0.1
+    ref = solve_ivp(f, (0.0, 1.0), [y0[v] for v in svars], t_eval=times, rtol=1e-12, atol=1e-14, method="DOP853")
+    fails = []
+    for key, path in outputs.items():
+        got = np.asarray(df[key], dtype=float).reshape(len(df.index), -1)[:, 0]
+        want = ref.y[svars.index(path)]
+        if got.shape != want.shape or not np.allclose(got, want, rtol=1e-8, atol=1e-10):
+            bad = int(np.argmax(np.abs(got - want))) if got.shape == want.shape else -1
+            fails.append(dict(clause="scipy solution in float64 within 1e-8 of the reference on every backend (no single-precision round trip)", var=path,
+                              observed=float(got[bad]) if bad >= 0 else list(got.shape), expected=float(want[bad]) if bad >= 0 else list(want.shape)))
+            break
+    return dict(status="violated" if fails else "ok", fails=fails)
+
+
 def diffrax_seq_case(c):
     """Two runs in ONE process with solver='diffrax' (JAX) that differ only in parameter values / input samples: each against the spec."""
     fails = []
@@ -226,6 +254,8 @@ def dispatch(c):
         return interp_field_case(c)
     if k == "diffrax_seq":
         return diffrax_seq_case(c)
+    if k == "smooth_scipy":
+        return smooth_scipy_case(c)
     if k == "ring":
         return ring_case(c)
     if k == "loops":
@@ -322,6 +352,9 @@ def families(tier, seed):
     for b in BACKENDS:
         out.append(dict(tag=f"interp-field/{b}", features=dict(backend=b), kind="interp_field", model=three, inputs={"p1/op/u": sig[:20]}, T=1.0, dt=0.05,
                         backend=b, seed=seed))
+    stt = {t: mm for t, f, mm in gen.c01_structured()}
+    for b in ("default", "torch", "jax"):
+        out.append(dict(tag=f"smooth-scipy/{b}", features=dict(backend=b, solver="scipy"), kind="smooth_scipy", model=stt["F1-chain-123"], backend=b))
     import json as _json
     smooth = [round(0.8 * float(np.sin(2 * np.pi * k / 20.0 + 0.3 * seed)), 4) for k in range(20)]     # smooth: default solver tolerances suffice
     three_b = _json.loads(_json.dumps(three))
